@@ -367,6 +367,29 @@ class Grammar:
             return self._text(self.rules[q][1], stack + (q,), limit)
         return None
 
+    def is_name_like(self, name, _stack=()):
+        """the text of a pair of this rule is exactly one token (a Name, a keyword or a location word): no punctuation or
+        trivia can be part of it. Lookaheads are ignored."""
+        if name == "Name":
+            return True
+        if name not in self.rules or name in _stack:
+            return False
+        mod, e = self.rules[name]
+
+        def strip(x):
+            if x[0] == "seq":
+                items = [y for y in x[1] if y[0] not in ("neg", "pos")]
+                return items[0] if len(items) == 1 else ("seq", items)
+            return x
+        e = strip(e)
+        if e[0] == "id":
+            return self.is_name_like(e[1], _stack + (name,))
+        if e[0] == "choice":
+            return all((y[0] == "id" and self.is_name_like(y[1], _stack + (name,))) or (y[0] == "str" and y[1].replace("_", "").isalnum()) for y in e[1])
+        if e[0] == "str":
+            return mod == "@" and e[1].replace("_", "").isalnum()
+        return False
+
     def forbids_raw(self, name):
         """for a rule of the shape `!( "a" | "b" | X ) ~ ANY`: the set of literal strings excluded (used for escape tables)"""
         e = self.rules[name][1]
